@@ -13,7 +13,7 @@ def view(a):
 
 def wf(a):
     """representation invariant (holds after __init__, preserved by every public operation)"""
-    return (-1 <= a.index and a.index + 1 <= len(a.array) and a.bucket_size == a.shape[0] and a.bucket_size >= 1
+    return (-1 <= a.index and a.index + 1 <= len(a.array) and len(a.array) >= 1 and a.bucket_size == a.shape[0] and a.bucket_size >= 1
             and (a.drop_at is None or a.drop_at >= 2))
 
 
